@@ -12,11 +12,16 @@ key exactly when they are equal, so a Hash finds a key iff it contains an equal 
 neither merge distinct values nor keep equal ones apart (NaN and Sensitive excepted).
 
 Model: `Pcore/Model/ValueEq.lean` — `veq` (the `Equals` methods), `key`/`kb` (`px.ToKey` byte for byte), `hashGet`,
-`unique`; Timespan (compared and keyed by whole seconds) and Timestamp values; types as values for Any Undef String Integer Float Enum Array Variant Tuple Optional Type (`tyEq`, `tyKey`);
+`unique`; Timespan (compared and keyed by whole seconds) and Timestamp values; types as values (`tyEq`, `tyKey`) for 37 type
+kinds: Any Undef String String[size] String['v'] Integer Float Enum Array Variant Tuple Optional Type, Default Unit Scalar ScalarData
+Numeric Binary Data RichData SemVerRange, Boolean Collection NotUndef Sensitive Iterable Iterator Regexp Pattern TypeReference
+SemVer[range] Hash Like Runtime Callable[params] Struct;
 URI, SemVer, SemVerRange (`Model/ValueEqVer.lean`: `semver.NewVersion3`, `Version.Equals/ToString`, `VersionRange.Equals/ToNormalizedString`),
-TypedName, Deferred, Parameter (no hash key: `key = none`, i.e. `INVALID_MAP_KEY`).
-The model has no hidden state at all: `Equals`/`ToKey` are functions of the value; that the implementation agrees with
-them before and after forcing its caches is what the correspondence run checks.
+TypedName, Deferred, Parameter and instances of Object types (no hash key: `key = none`, i.e. `INVALID_MAP_KEY`);
+the lazily built index of a Hash (`Model/ValueEqCache.lean`).
+The value-level model has no hidden state: `Equals`/`ToKey` are functions of the value; the cache layer (`CHash`) adds the one
+cache those methods read, and the theorems of the section "hidden state" say that it never matters; that the implementation
+agrees with the model before and after forcing its caches is, beyond that, what the correspondence run checks.
 
 `Comparable x` (`cmp`): integers are int64, floats are 64 bits and not NaN, no Sensitive anywhere (the two exceptions
 the property states), a Tuple type has at most 2^63-1 members, every Hash is a well-formed map (no two entries indexed
@@ -53,10 +58,16 @@ Full statement / proved / missing
   (`Generated/KeyTable.lean`: the `HkXxx` constants and the leading bytes each `ToKey` writes): they are the bytes the
   model writes, and the eleven kinds have pairwise distinct two-byte heads.  A change of a prefix byte in the code breaks
   this obligation.
-* missing: object instances and the types outside the model (String types
-  with a size or value, Struct, Hash, Pattern, Object, Callable … types): no theorem, only the harness predicate where
-  generated.  The range grammar (`ParseVersionRange`) and `net/url` are outside the model (an op states what the string parses
-  to, checked on every run).  Hidden state: by correspondence only (see above).
+* `C07_type_key_iff` now ranges over the 37 type kinds listed above (`C07_callable_key_iff`, `C07_semver_type_repaired`,
+  `C07_runtime_repaired`, `C07_callable_repaired`, `C07_struct_key_repaired`: the former witnesses of six findings of this round,
+  all repaired in /repo).
+* `C07_get/includes/equals_cache_independent`, `C07_forced_same`, `C07_includes_key`, `C07_put_coherent`,
+  `C07_stale_index_breaks`, `C07_cache_fields_ok` — **proved**: the hidden-state clause for the Hash index.
+* missing: reflected objects; the types outside the model (URI[..], Init, Timespan / Timestamp ranges, TypeSet, Object and
+  alias types, Callable with a return or block type): no theorem, only the harness predicate where generated (known findings
+  there: C07-object-type-identity-key, C07-timestamp-type-zone-key, C07-uri-type-param-order).  The range grammar
+  (`ParseVersionRange`), `net/url` and `objectType.Equals` are outside the model (an op states what they answer, checked on
+  every run).  The caches other than the Hash index: by correspondence only.
 -/
 namespace Pcore.ValueEq
 
